@@ -135,7 +135,8 @@ func project(prop string, o *Out) string {
 				return ev.at(1).String() + ev.at(2).String() + ev.at(3).String() + detailNoStatus(ev.at(4)) + ev.at(5).String() + ev.at(6).String() + ev.at(7).String()
 			})
 	case "C10":
-		return fmt.Sprintf("r=%d ek=%d|", o.RTag, o.ErrKind) +
+		// the store reads show how far the walk went: a re-entered flag or segment must end it at once
+		return fmt.Sprintf("r=%d ek=%d|", o.RTag, o.ErrKind) + o.traceOf(1, 2) + "|" +
 			o.eventsProj(func(ev *T) string { return ev.at(1).String() + ev.at(2).String() })
 	case "C11":
 		return o.BigSeg.String() + "|" + o.traceOf(3, 4) + "|" + o.Index.String() + fmt.Sprintf(" r=%d", o.RTag) + "|" +
